@@ -25,8 +25,10 @@ Private == {"_h"}                            \* the names starting with an under
 Unbound == "-"
 EmptyNs == [n \in Names |-> Unbound]
 
-AllVariants == {"no", "v", "vh"}             \* no __all__ / __all__ = ['v'] / __all__ = ['v', '_h']
-AllList(a) == CASE a = "v" -> <<"v">> [] a = "vh" -> <<"v", "_h">> [] OTHER -> <<>>
+(* __all__ of a module: absent / [] / () / ['v'] (pub is public but not listed) / ['v', '_h'] (an underscore  *)
+(* name listed) / ['v', 'zz'] (zz is never defined)                                                             *)
+AllVariants == {"no", "empty", "emptyt", "v", "vh", "vz"}
+AllList(a) == CASE a = "v" -> <<"v">> [] a = "vh" -> <<"v", "_h">> [] a = "vz" -> <<"v", "zz">> [] OTHER -> <<>>
 RaiseVariants == {"no", "early", "late"}     \* the body raises ValueError right after its first line / just before its last
 Kinds == {"src", "gosrc", "goglob"}          \* file on sys.path / registered Go ModuleImpl with Python CodeSrc / registered Go ModuleImpl with Globals only
 
